@@ -228,7 +228,7 @@ pub fn run(rep: &'static Report) {
     if let Some(c) = cases.iter().find(|c| c["dims"].as_object().is_some_and(|o| o.len() == 2)) {
         rep.sample(json!({"dims": c["dims"], "source": c["source"]}));
     }
-    rep.set("rule", "documents assembled from blocks whose every line has a known completion class (12 dimensions: scope of the fixture being edited, signature layout, declared parameters, class nesting, async, extra decorators, body shape, usefixtures forms, parametrize, 13 unfinished signature/decorator tails, document location, name collision with a conftest fixture; ≤ max_deviations off-default); EVERY judged line is queried at its canonical column (inside the parentheses on signature/decorator lines, end of line in bodies, column 0 at module level) through the real completion handler (once on a fresh server, once after a completion request from a document in another directory with a different visible set, and — unfinished documents — once more after a previous valid version with a different line layout whose every line lay inside a test's signature or body) in a workspace with same-file, conftest (all five scopes), plugin, third-party, shadowed and non-visible sibling fixtures; expected = no items outside signature/body/usefixtures/indirect-parametrize contexts, else visible − declared − the fixture being edited − (inside a fixture) narrower scopes, each label once, sort groups same-file < conftest < plugin < third-party");
+    rep.set("rule", "documents assembled from blocks whose every line has a known completion class (13 dimensions: scope of the fixture being edited, signature layout, declared parameters, class nesting, async, extra decorators, body shape, usefixtures forms, parametrize, 13 unfinished signature/decorator tails, document location, name collision with a conftest fixture, multi-line decorator calls and module-level multi-line calls / lists between and after the functions, defaulted parameters named like fixtures; ≤ max_deviations off-default); EVERY judged line is queried at its canonical column (inside the parentheses on signature/decorator lines, end of line in bodies, column 0 at module level) through the real completion handler (once on a fresh server, once after a completion request from a document in another directory with a different visible set, and — unfinished documents — once more after a previous valid version with a different line layout whose every line lay inside a test's signature or body) in a workspace with same-file, conftest (all five scopes), plugin, third-party, shadowed and non-visible sibling fixtures; expected = no items outside signature/body/usefixtures/indirect-parametrize contexts, else visible − declared − the fixture being edited − (inside a fixture) narrower scopes, each label once, sort groups same-file < conftest < plugin < third-party");
     rep.assume("the generator is the ground truth for line classes; blank lines between functions, nested helper functions, parametrize without indirect and `def test_x` without parenthesis are not judged; an unfinished document is analysed after its last valid version");
 }
 
